@@ -44,6 +44,8 @@ FIRST_MISSED = {
     "C15-4": "own property silent (reported by C16 FLUSH) -> C15 RDC-3 shares the WriteMessage nothing-pending guard",
     "C16-4": "own property silent (reported by C15/C05 RDC-3) -> C16 re-checks the accounting of NoiseConn.Write",
     "C17-4": "no check reported it -> SIDFRESH: SetRemote keeps the key only when it reports success (shared by C11 and C17)",
+    "C05-5": "own property silent (reported by C18 LOCKORD) -> C05 imports the obligations of the layers below (LAYER/C01,C06,C18,C08,C02,C16)",
+    "C05-6": "own property silent (reported by C01 WIN-1, C06 NACKWIRE) -> C05 imports the obligations of the layers below",
     "C06-3": "no check reported it -> RATELIMIT: once lastResend is refreshed the packets are transmitted",
 }
 
